@@ -136,6 +136,12 @@ Theorem c02_periodic_flush_returns_under_fair_worker : forall s tr s' t,
 Proof. exact periodic_flush_returns_under_fair_worker. Qed.
 Print Assumptions c02_periodic_flush_returns_under_fair_worker.
 
+(* the periodic reader's worker is joined at most once however many threads request Shutdown (F31): every accepted trace
+   passes the join-once checker that is run on the implementation's traces *)
+Theorem c02_periodic_accepted_trace_joins_worker_once : forall tr s, rrun rinit tr = Some s -> periodic_join_walk false (rpevs tr) = [].
+Proof. exact accepted_trace_meets_periodic_spec_join. Qed.
+Print Assumptions c02_periodic_accepted_trace_joins_worker_once.
+
 Theorem c02_periodic_ticket_mark : forall s t old s', t <> 0 -> r_coll s = None ->
   raccept s (t, RFaddPending old) = Some s' -> length (r_marks s) = r_pending s ->
   rmark s' (S old) = r_nrec s /\ r_pending s' = S old.
